@@ -60,7 +60,7 @@ class OpsGen:
             # cursor forms with the cursor placed (through the documented cursor::pointer()) exactly where the
             # protocol requires it for this field, *without* touching the buffer first: a preceding checked read
             # would assert for every short n and hide a missing check in the cursor path
-            place = "sbepp::cursor<char> c; c.pointer() = sbepp::addressof(l) + %d;" % (lvl_base + prev_end)
+            place = "sbepp::cursor<vrt_byte_t> c; c.pointer() = sbepp::addressof(l) + %d;" % (lvl_base + prev_end)
             is_scalar = items[0][1] == "scalar"
             vt = "typename std::decay<decltype(l.%s())>::type" % f.name
             for wn, wx in (("plain", "c"), ("dont_move", "sbepp::cursor_ops::dont_move(c)"),
@@ -81,11 +81,11 @@ class OpsGen:
                     out.append(Op("set-blind", path, mem, "{ typename std::decay<decltype(%s)>::type v{}; %s(v); }" % (acc, setter), "leaf"))
                     if not chain:
                         out.append(Op("get-cursor-init", path, mem,
-                                      "{ sbepp::cursor<char> c; vrt::sink(vrt::txt(l.%s(sbepp::cursor_ops::init(c)))); }" % f.name, "leaf"))
+                                      "{ sbepp::cursor<vrt_byte_t> c; vrt::sink(vrt::txt(l.%s(sbepp::cursor_ops::init(c)))); }" % f.name, "leaf"))
                         out.append(Op("set-cursor-init", path, mem,
-                                      "{ sbepp::cursor<char> c; auto v = l.%s(); l.%s(v, sbepp::cursor_ops::init(c)); }" % (f.name, f.name), "leaf"))
+                                      "{ sbepp::cursor<vrt_byte_t> c; auto v = l.%s(); l.%s(v, sbepp::cursor_ops::init(c)); }" % (f.name, f.name), "leaf"))
                         out.append(Op("set-cursor-init-blind", path, mem,
-                                      "{ sbepp::cursor<char> c; typename std::decay<decltype(l.%s())>::type v{}; l.%s(v, sbepp::cursor_ops::init(c)); }" % (f.name, f.name), "leaf"))
+                                      "{ sbepp::cursor<vrt_byte_t> c; typename std::decay<decltype(l.%s())>::type v{}; l.%s(v, sbepp::cursor_ops::init(c)); }" % (f.name, f.name), "leaf"))
                         out.append(Op("set-by-tag-blind", path, mem,
                                       "{ typename std::decay<decltype(l.%s())>::type v{}; sbepp::set_by_tag<typename LT::%s>(l, v); }" % (f.name, f.name), "leaf"))
                         out.append(Op("get-by-tag", path, mem, "vrt::sink(vrt::txt(sbepp::get_by_tag<typename LT::%s>(l)));" % f.name, "leaf"))
@@ -103,7 +103,7 @@ class OpsGen:
                     out.append(Op("array-raw-index", path, mem, "{ auto r = %s.raw(); if(r.size()) { vrt::sink(r[r.size() - 1]); vrt::sink(r.front()); vrt::sink(r.back()); } }" % acc, "leaf"))
                     out.append(Op("array-raw-iterate", path, mem, "{ auto r = %s.raw(); unsigned s = 0; for(auto x : r) s += static_cast<unsigned char>(x); vrt::sink(s); }" % acc, "leaf"))
                     out.append(Op("array-raw-fill", path, mem, "{ auto r = %s.raw(); r.fill(static_cast<typename decltype(r)::value_type>(0x47)); }" % acc, "leaf"))
-                    out.append(Op("array-raw-strlen", path, mem, "{ auto r = %s.raw(); vrt::sink(r.strlen()); vrt::sink(r.strlen_r()); }" % acc, "leaf"))
+                    out.append(Op("array-raw-strlen", path, mem, "{\n#if !defined(VRT_BYTE_KIND) || VRT_BYTE_KIND == 0\n  /* string length is a char operation: a raw view over unsigned char / std::byte has none */\n  auto r = %s.raw(); vrt::sink(r.strlen()); vrt::sink(r.strlen_r());\n#endif\n}" % acc, "leaf"))
                     if kind.endswith(":char"):
                         out.append(Op("array-strlen", path, mem, "vrt::sink(%s.strlen());" % acc, "leaf"))
                         out.append(Op("array-strlen_r", path, mem, "vrt::sink(%s.strlen_r());" % acc, "leaf"))
@@ -125,7 +125,7 @@ class OpsGen:
             out.append(Op("group-fill-header", path, mem, "{ auto g = %s; const auto n = g.size(); sbepp::fill_group_header(g, n); }" % acc, "group-header"))
             out.append(Op("group-resize", path, mem, "{ auto g = %s; g.resize(g.size()); }" % acc, "group-header"))
             out.append(Op("group-cursor-walk", path, mem,
-                          "{ sbepp::cursor<char> c; auto g = l.%s(sbepp::cursor_ops::init(c)); std::size_t k = 0; "
+                          "{ sbepp::cursor<vrt_byte_t> c; auto g = l.%s(sbepp::cursor_ops::init(c)); std::size_t k = 0; "
                           "vrt::rec_visitor<char> v{-1, nullptr}; v.entry_counters.push_back(0); "
                           "for(const auto e : g.cursor_range(c)) { (void)e; sbepp::visit_children(e, c, v); ++k; } vrt::sink(k); vrt::out().clear(); }" % g.name, "group"))
             if read_first:
@@ -138,7 +138,7 @@ class OpsGen:
             out.append(Op("group-fill-header-blind", path, mem, "{ auto g = %s; sbepp::fill_group_header(g, 0); }" % acc, "group-header"))
             out.append(Op("group-resize-blind", path, mem, "{ auto g = %s; g.resize(0); }" % acc, "group-header"))
             out.append(Op("group-clear", path, mem, "{ auto g = %s; g.clear(); }" % acc, "group-header"))
-            gplace = "sbepp::cursor<char> c; c.pointer() = sbepp::addressof(%s);" % acc
+            gplace = "sbepp::cursor<vrt_byte_t> c; c.pointer() = sbepp::addressof(%s);" % acc
             out.append(Op("group-cursor-plain", path, mem, "{ %s auto g = l.%s(c); vrt::sink(g.size()); }" % (gplace, g.name), "group-header"))
             out.append(Op("group-cursor-dont_move", path, mem, "{ %s auto g = l.%s(sbepp::cursor_ops::dont_move(c)); vrt::sink(g.size()); }" % (gplace, g.name), "group-header"))
             out.append(Op("group-cursor-skip", path, mem, "{ %s l.%s(sbepp::cursor_ops::skip(c)); }" % (gplace, g.name), "group"))
@@ -169,7 +169,7 @@ class OpsGen:
             out.append(Op("data-assign_range-same", path, mem,
                           "{ auto d = %s; std::vector<unsigned char> b(d.size(), 0x43); d.assign_range(b); }" % acc, "data"))
             out.append(Op("data-assign-count-same", path, mem, "{ auto d = %s; d.assign(d.size(), static_cast<%s>(0x44)); }" % (acc, vt), "data"))
-            out.append(Op("data-cursor-init", path, mem, "{ sbepp::cursor<char> c; vrt::sink(l.%s(sbepp::cursor_ops::init(c)).size()); }" % d.name, "data-prefix"))
+            out.append(Op("data-cursor-init", path, mem, "{ sbepp::cursor<vrt_byte_t> c; vrt::sink(l.%s(sbepp::cursor_ops::init(c)).size()); }" % d.name, "data-prefix"))
             out.append(Op("data-raw-read", path, mem, "vrt::sink(vrt::txt(%s.raw()));" % acc, "data"))
             out.append(Op("data-raw-iterate", path, mem, "{ auto r = %s.raw(); unsigned s = 0; for(auto x : r) s += static_cast<unsigned char>(x); vrt::sink(s); }" % acc, "data"))
             out.append(Op("data-raw-front-back", path, mem, "{ auto r = %s.raw(); if(!r.empty()) { vrt::sink(r.front()); vrt::sink(r.back()); vrt::sink(r[0]); } }" % acc, "data"))
@@ -182,7 +182,7 @@ class OpsGen:
                           % (acc, vt, vt, vt), "data-prefix+3"))
             if m.data_elem_prim(d) == "char":
                 out.append(Op("data-assign_string-blind", path, mem, "{ auto d = %s; d.assign_string(\"abc\"); }" % acc, "data-prefix+3"))
-            dplace = "sbepp::cursor<char> c; c.pointer() = sbepp::addressof(%s);" % acc
+            dplace = "sbepp::cursor<vrt_byte_t> c; c.pointer() = sbepp::addressof(%s);" % acc
             out.append(Op("data-cursor-plain", path, mem, "{ %s vrt::sink(l.%s(c).size()); }" % (dplace, d.name), "data"))
             out.append(Op("data-cursor-dont_move", path, mem, "{ %s vrt::sink(vrt::txt(l.%s(sbepp::cursor_ops::dont_move(c)))); }" % (dplace, d.name), "data"))
             out.append(Op("data-cursor-skip", path, mem, "{ %s l.%s(sbepp::cursor_ops::skip(c)); }" % (dplace, d.name), "data"))
@@ -208,7 +208,7 @@ class OpsGen:
         for mi, msg in enumerate(self.s.messages):
             ops = []
             # message-level operations
-            view = "::%s::messages::%s<char>" % (self.pkg, msg.name)
+            view = "::%s::messages::%s<vrt_byte_t>" % (self.pkg, msg.name)
             mt = "::%s::schema::messages::%s" % (self.pkg, msg.name)
             k = base.lid(msg)
             ops.append(Op("message-fill-header", [], ("#msg", ()), "sbepp::fill_message_header(l);", "header"))
@@ -234,7 +234,7 @@ class OpsGen:
                             "    auto l = %s;\n    using LT = %s;\n    (void)l;\n    (void)sizeof(LT);\n    %s\n}\n" % (mi, oi, view, nav, cur, tag, op.body))
             cases = "\n".join("        case %d: op_%d_%d(m, ix); break;" % (oi, mi, oi) for oi in range(len(ops)))
             code.append("static void run_ops_%d(int op, unsigned char* p, std::size_t n, const std::vector<unsigned long long>& ix)\n{\n"
-                        "    %s m{reinterpret_cast<char*>(p), n};\n    switch(op)\n    {\n%s\n    }\n}\n" % (mi, view, cases))
+                        "    %s m{reinterpret_cast<vrt_byte_t*>(p), n};\n    switch(op)\n    {\n%s\n    }\n}\n" % (mi, view, cases))
             disp.append("        case %d: run_ops_%d(op, p, n, ix); break;" % (mi, mi))
         code.append(OPS_MAIN.replace("%(disp)s", "\n".join(disp)))
         # g_n must be declared before the ops
